@@ -82,7 +82,12 @@ func genC13(rng *rand.Rand, c *Case) {
 		case k < 12:
 			c.Ops = append(c.Ops, Op{C: n, K: "adminflag", N: []int{rng.Intn(n), rng.Intn(2)}})
 		case k < 13:
-			c.Ops = append(c.Ops, Op{C: ci, K: "idle"})
+			if rng.Intn(2) == 0 {
+				// becomes active again at the very instant the server's idle check marks it away
+				c.Ops = append(c.Ops, Op{C: ci, K: "idlerace"})
+			} else {
+				c.Ops = append(c.Ops, Op{C: ci, K: "idle"})
+			}
 		case k < 14 && rng.Intn(3) == 0:
 			// the administrator disconnects a user, who may be in the middle of something - half of the time at the
 			// very moment that user changes its name or options (rendezvous, outside serial mode)
@@ -193,6 +198,7 @@ func runC13(w *World) {
 	w.AddAccount("root", "Root", "rootpw", rp.AllAccess())
 	w.AddAccount("tempacct", "Temp", "", base)
 	si := w.StartServer()
+	tickerStart := time.Now() // the idle checker ticks every 10 s from here
 	// history with more than 65,535 connections: once the first wrap_after clients are logged in, the
 	// scheduler goroutine (no thread runs) performs cfg["wrap"] connect/disconnect pairs through the
 	// public ClientManager seam - equivalent to that many past connections that came and went.
@@ -440,6 +446,26 @@ func runC13(w *World) {
 							w.Violate("c13-info-wrong-user", "get-info for id %d (client %d, %q) returned user %q", uid[t], t, wantName, nm)
 						}
 					}
+				case "idlerace":
+					if cfg["nopart2"] == 1 {
+						giveTurnQuick()
+						continue
+					}
+					// activity now, then silence until the tick at which the idle time first exceeds 300 s (the 31st
+					// tick from here), then activity at that very instant: marking and un-marking race inside the server
+					touch := func() {
+						ver[idx]++
+						c.Request(rp.TSetClientUserInfo, rp.FS(rp.FUserName, names[idx]), rp.F16(rp.FUserIconID, icons[idx]))
+						c.Do(rp.TKeepAlive)
+						ver[idx]++
+					}
+					touch()
+					ticks := int(time.Since(tickerStart) / (10 * time.Second))
+					target := tickerStart.Add(time.Duration(ticks+31) * 10 * time.Second)
+					simrt.Sleep(time.Until(target))
+					touch()
+					away[idx] = false
+					w.Probe("activity_at_the_idle_marking_tick")
 				case "idle":
 					if cfg["nopart2"] == 1 {
 						giveTurnQuick()
